@@ -636,7 +636,7 @@ pub fn run(cx: &mut Ctx) {
     cx.check(
         "cursor-history",
         RULE,
-        Budget { quick: 400_000, thorough: 12_000_000, max_len: 4500 },
+        Budget { quick: 1_000_000, thorough: 15_000_000, max_len: 4500 },
         |u, st| history_case(u, st, max_len, 60, false),
     );
     for cl in [
@@ -657,7 +657,7 @@ pub fn run(cx: &mut Ctx) {
     cx.check(
         "static-queries",
         "same sequence generator; len, is_empty, universe, get(i) for every i in 0..len+3 and huge i, predecessor(v) for v around every (or 400 sampled) element plus 0, u32::MAX, 2^31 and random v, iteration order and termination; all against the plain Vec. Non-trivial: len >= 2.",
-        Budget { quick: 100_000, thorough: 3_000_000, max_len: 4500 },
+        Budget { quick: 300_000, thorough: 3_000_000, max_len: 4500 },
         |u, st| {
             let (values, class) = gen_values(u, max_len);
             classify_values(&values, class, st);
@@ -679,7 +679,7 @@ pub fn run(cx: &mut Ctx) {
         cx.check(
             "long-sequences",
             "sequences of 1000..200000 elements expanded from segment parameters; sampled static queries (every 256-element sample boundary +-1, 600 random i, a dense window) and a history of up to 120 operations",
-            Budget { quick: 0, thorough: 3_000, max_len: 6000 },
+            Budget { quick: 0, thorough: 10_000, max_len: 6000 },
             |u, st| {
                 let (values, class) = gen_long_values(u, 200_000);
                 let ops = gen_ops(u, values.len(), 120);
